@@ -10,7 +10,7 @@ EXPLANATION = ('Structural necessary conditions of topic aliasing: an outbound r
                'by encoding the packet with that resolution; resolvers are reset only by a successful CONNACK with the CONNACK\'s alias maximum; '
                'every resolution literal that drops the topic is dominated by a binding-equals-topic test and new bindings by range tests; the '
                'MQTT 5 writer takes topic/alias from the resolution only and the 3.1.1 writer never aliases; inbound resolution precedes '
-               'validation and handling and rejects zero / out-of-range / unknown aliases. Added in round 2: the LRU resolver evicts the least-recently-used binding whenever the negotiated maximum is reached, before recording a new binding.')
+               'validation and handling and rejects zero / out-of-range / unknown aliases. Added in round 2: the LRU resolver evicts the least-recently-used binding whenever the negotiated maximum is reached, before recording a new binding. Added after the mutation sweeps: the resolver-factory setter stores its argument.')
 ASSUMPTIONS = ['not decided: agreement of the resolver tables with what the server saw over all histories beyond the resolve-then-send rule; user-supplied OutboundAliasResolver implementations']
 P = 'src/protocol.rs'
 PS = 'protocol::ProtocolState'
